@@ -407,6 +407,7 @@ def analyse() -> Builder:
     key = str(hash(src))
     if _CACHE.get('key') == key:
         return _CACHE['val']
+    T.analyse()          # loads the number-format tables and the inlinable locals that flatten/classify use
     funcs = T._funcs(ast.parse(src))
     b = Builder(funcs)
     _CACHE.update(key=key, val=b)
@@ -686,6 +687,100 @@ def output_seps(tree: ast.Module, funcs: dict[str, ast.FunctionDef]) -> dict:
             'recombine_from': recombine_from}
 
 
+def _guard_form(e: ast.AST) -> tuple[str, str]:
+    """any(<v>.<m> for <v> in self._disp_verts) -> ('GAnyTruthy', m); any(<v>.<m> is not None for ...) -> ('GAnyNotNone', m);
+    a generator or a list comprehension, `bool(v.m)` allowed; anything else -> ('GOther', '')."""
+    if isinstance(e, ast.Call) and ast.unparse(e.func) == 'any' and len(e.args) == 1 and not e.keywords \
+            and isinstance(e.args[0], (ast.GeneratorExp, ast.ListComp)) and len(e.args[0].generators) == 1:
+        g = e.args[0].generators[0]
+        if isinstance(g.target, ast.Name) and not g.ifs and ast.unparse(g.iter) == 'self._disp_verts':
+            v, elt = g.target.id, e.args[0].elt
+            if isinstance(elt, ast.Call) and ast.unparse(elt.func) == 'bool' and len(elt.args) == 1:
+                elt = elt.args[0]
+            if isinstance(elt, ast.Attribute) and isinstance(elt.value, ast.Name) and elt.value.id == v:
+                return 'GAnyTruthy', elt.attr
+            if isinstance(elt, ast.Compare) and len(elt.ops) == 1 and isinstance(elt.ops[0], ast.IsNot) \
+                    and isinstance(elt.comparators[0], ast.Constant) and elt.comparators[0].value is None \
+                    and isinstance(elt.left, ast.Attribute) and isinstance(elt.left.value, ast.Name) and elt.left.value.id == v:
+                return 'GAnyNotNone', elt.left.attr
+    return 'GOther', ''
+
+
+def _falsy_defaults(tree: ast.Module) -> list[str]:
+    """Members of DispVertex whose value in a freshly made vertex is falsy: numeric literal 0, Vec4() with Vec4's fields all
+    defaulting to 0 and Vec4.__bool__ = any component non-zero, attrs.field(factory=Vec) (Vec() is the zero vector), None."""
+    classes = {n.name: n for n in tree.body if isinstance(n, ast.ClassDef)}
+    dv, v4 = classes.get('DispVertex'), classes.get('Vec4')
+    if dv is None or v4 is None:
+        raise TranslateError('DispVertex / Vec4 not found')
+    v4_fields = [n for n in v4.body if isinstance(n, ast.AnnAssign)]
+    v4_zero = bool(v4_fields) and all(isinstance(n.value, ast.Constant) and n.value.value == 0 for n in v4_fields)
+    v4_bool = next((n for n in v4.body if isinstance(n, ast.FunctionDef) and n.name == '__bool__'), None)
+    v4_truth = False
+    if v4_bool is not None:
+        rets = [n for n in ast.walk(v4_bool) if isinstance(n, ast.Return) and n.value is not None]
+        if len(rets) == 1:
+            attrs_ = {n.attr for n in ast.walk(rets[0].value) if isinstance(n, ast.Attribute)}
+            only = all(isinstance(n, (ast.Call, ast.Name, ast.BoolOp, ast.Or, ast.Attribute, ast.Load)) for n in ast.walk(rets[0].value))
+            v4_truth = only and attrs_ == {ast.unparse(n.target) for n in v4_fields}
+    out = []
+    for n in dv.body:
+        if not isinstance(n, ast.AnnAssign) or n.value is None:
+            continue
+        v = n.value
+        src = ast.unparse(v)
+        if (isinstance(v, ast.Constant) and (v.value is None or v.value == 0)) or (src == 'Vec4()' and v4_zero and v4_truth) \
+                or re.fullmatch(r'attrs\.field\(factory=Vec\b.*\)', src) or re.fullmatch(r'attrs\.field\(default=None\b.*\)', src, re.S):
+            out.append(ast.unparse(n.target))
+    return out
+
+
+def optional_groups(tree: ast.Module, funcs: dict[str, ast.FunctionDef]) -> list[dict]:
+    """`if` statements of Side._export_displacement (without else) that guard the writing of whole arrays."""
+    ed = funcs['Side._export_displacement']
+    params = {a.arg for a in ed.args.args}
+    falsy = _falsy_defaults(tree)
+    groups = []
+
+    def arrays_in(stmts: list[ast.stmt]) -> list[tuple[str, str]]:
+        out: list[tuple[str, str]] = []
+        for s in stmts:
+            for n in ast.walk(s):
+                if isinstance(n, ast.Call) and ast.unparse(n.func) == 'self._export_disp_rowset':
+                    a = n.args
+                    if len(a) >= 2 and isinstance(a[0], ast.Constant) and isinstance(a[1], ast.Constant):
+                        out.append((a[0].value, a[1].value))
+                    else:
+                        raise TranslateError('_export_displacement: rowset call without literal array / member names')
+            if isinstance(s, ast.For):
+                # inline arrays: block names written in the loop, member read from the vertices
+                m = re.fullmatch(r'range\((\d+)\)', ast.unparse(s.iter))
+                names = set()
+                for n in ast.walk(s):
+                    if isinstance(n, ast.JoinedStr):
+                        txt = ''.join(str(v.value) if isinstance(v, ast.Constant) else '{}' for v in n.values)
+                        for mm in re.finditer(r'([a-z_]+_)\{\}\n', txt):
+                            names.add(mm.group(1))
+                mem = {n.attr for n in ast.walk(s) if isinstance(n, ast.Attribute) and isinstance(n.value, ast.Name) and n.value.id == 'vert'}
+                if names and m and len(mem) == 1:
+                    for nm in sorted(names):
+                        out += [(f'{nm}{k}', next(iter(mem))) for k in range(int(m.group(1)))]
+        return out
+    for s in ed.body:
+        if isinstance(s, ast.If):
+            arrs = arrays_in(s.body)
+            if not arrs:
+                continue
+            if s.orelse:
+                raise TranslateError('_export_displacement: arrays written under if/else')
+            parts = s.test.values if (isinstance(s.test, ast.BoolOp) and isinstance(s.test.op, ast.And)) else [s.test]
+            opts = [p.id for p in parts if isinstance(p, ast.Name) and p.id in params]
+            rest = [p for p in parts if not (isinstance(p, ast.Name) and p.id in params)]
+            form, mem = _guard_form(rest[0]) if len(rest) == 1 else ('GOther', '')
+            groups.append({'arrays': arrs, 'form': form, 'member': mem, 'falsy': falsy, 'options': opts, 'test': ast.unparse(s.test)})
+    return groups
+
+
 def gen_fields() -> tuple[str, dict]:
     src = src_text('vmf.py')
     tree = ast.parse(src)
@@ -695,9 +790,10 @@ def gen_fields() -> tuple[str, dict]:
     writers = row_writers(b)
     o = output_seps(tree, funcs)
     fw, fr = T.fixup_index_shape(funcs)
+    groups = optional_groups(tree, funcs)
     order = ['target', 'input', 'params', 'delay', 'times']
     lines = ['(* GENERATED by translate/c06_prog.py from src/srctools/vmf.py. Do not edit. *)',
-             'From Coq Require Import NArith List String.', 'From SV Require Import Fmt.VmfText Fmt.VmfFields.', 'Import ListNotations.',
+             'From Coq Require Import NArith List String.', 'From SV Require Import Fmt.VmfText Fmt.VmfFields Fmt.VmfGuard.', 'Import ListNotations.',
              'Open Scope N_scope.', '',
              f'(* Side._iter_disp_row ({form} form): prefix tested, characters skipped before int(), digit count accepted *)',
              f'Definition gen_rowreader : rowreader := mk_rowreader {T._coq_str(prefix)} {skip}%nat {lo}%nat '
@@ -719,9 +815,16 @@ def gen_fields() -> tuple[str, dict]:
              '(* number of pieces unpacked exactly; smallest number of comma-separated pieces that is recombined into five *)',
              f'Definition gen_out_exact_fields : nat := {o["n_exact"]}.',
              f'Definition gen_out_recombine_from : nat := {o["recombine_from"]}.',
+             '(* arrays of Side._export_displacement written under a guard: (block, vertex member) pairs, form of the guard, members',
+             '   of DispVertex whose default is falsy, export options and-ed to the guard *)',
+             'Definition gen_opt_groups : list optgroup := [' + '; '.join(
+                 'mk_optgroup [' + '; '.join(f'({T._coq_name(a)}, {T._coq_name(m)})' for a, m in g['arrays']) + ']%string '
+                 + (f'({g["form"]} {T._coq_name(g["member"])}%string)' if g['form'] != 'GOther' else 'GOther')
+                 + ' [' + '; '.join(T._coq_name(x) for x in g['falsy']) + ']%string [' + '; '.join(T._coq_name(x) for x in g['options']) + ']%string'
+                 for g in groups) + '].',
              '']
     return '\n'.join(lines), {'rowreader': {'prefix': prefix, 'skip': skip, 'min': lo, 'max': hi, 'form': form}, 'row_writers': writers,
-                              'output': o, 'fixup': [fw, fr]}
+                              'output': o, 'fixup': [fw, fr], 'optional_groups': groups}
 
 
 GEN['VmfFieldsCfg_gen'] = gen_fields
